@@ -108,7 +108,7 @@ def parse_log(path):
             entry_ord[pid] = entry(pid, text)
             pending[pid] = text
             continue
-        m2 = re.match(r'^<\.\.\. (\w+) resumed>(.*)$', rest)
+        m2 = re.match(r'^<\.\.\. (\S+) resumed>(.*)$', rest)
         if m2:
             if pid not in pending:
                 raise vlib.Infra('strace: resumed without unfinished: ' + raw[:200])
@@ -116,6 +116,8 @@ def parse_log(path):
             o = entry_ord.pop(pid)
         else:
             o = entry(pid, rest)
+        if rest.startswith('???('):
+            continue            # a thread that was killed before strace could decode its call
         mc = CALL.match(rest)
         if not mc:
             raise vlib.Infra('strace: cannot parse line: ' + raw[:300])
@@ -380,7 +382,15 @@ class Runner:
             if rel:
                 marks.append((c['name'], c['ord'], c['args']))
         final = snapshot(root)
-        fuzzy = any(p['name'] in Conv.MUT for p in pend)
+        # calls without a result: the one the kill was injected at has NOT been executed (killed at entry); a call another
+        # thread was inside at that moment may or may not have taken effect -> the snapshot comparison is fuzzy
+        kills = set()
+        for i in inject:
+            m = re.match(r'^(\w+):signal=SIGKILL:when=(\d+)$', i)
+            if m:
+                kills.add((m.group(1), int(m.group(2))))
+        fuzzy = any(p['name'] in Conv.MUT for p in pend) or \
+            any(c['ret'] is None and c['name'] in Conv.MUT and (c['name'], c['ord']) not in kills for c in calls)
         os.remove(log)
         if not os.environ.get('VERIF_KEEP'):
             shutil.rmtree(root, ignore_errors=True)
